@@ -66,6 +66,10 @@ func c15Basis(name string) []c15Term {
 		return []c15Term{{"exp(x/2)", func(x float64) float64 { return math.Exp(x / 2) }}}
 	case "x-x2": // no constant term
 		return []c15Term{{"x", func(x float64) float64 { return x }}, {"x^2", func(x float64) float64 { return x * x }}}
+	case "2-x": // a constant term that is not 1
+		return []c15Term{{"2", func(float64) float64 { return 2 }}, {"x", func(x float64) float64 { return x }}}
+	case "half-x2-x": // a constant 0.5 first, then x^2 and x
+		return []c15Term{{"0.5", func(float64) float64 { return 0.5 }}, {"x^2", func(x float64) float64 { return x * x }}, {"x", func(x float64) float64 { return x }}}
 	case "x-then-1": // constant term last
 		return []c15Term{{"x", func(x float64) float64 { return x }}, {"1", func(float64) float64 { return 1 }}}
 	}
@@ -664,7 +668,7 @@ func c15Run(c *core.Ctx) {
 		runLS(xs, ys, ws, "trig")
 		runLS(xs, ys, nil, "abs")
 		runLS(xs, ys, ws, "abs")
-		for _, b := range []string{"only-x", "only-exp", "x-x2", "x-then-1"} {
+		for _, b := range []string{"only-x", "only-exp", "x-x2", "x-then-1", "2-x", "half-x2-x"} {
 			runLS(xs, ys, nil, b)
 			runLS(xs, ys, ws, b)
 		}
@@ -678,7 +682,7 @@ func c15Run(c *core.Ctx) {
 			runLS(xs, ys, ws, b)
 		}
 	})
-	r.Bound("least_squares", fmt.Sprintf("every subset of size %v of the 8-point lattice x {1,10} + n=40; 7 generating polynomials + table; degrees 0..6; 6 other bases (incl. single non-constant terms and bases without / ending in the constant); weighted and unweighted", sizes))
+	r.Bound("least_squares", fmt.Sprintf("every subset of size %v of the 8-point lattice x {1,10} + n=40; 7 generating polynomials + table; degrees 0..6; 8 other bases (incl. single non-constant terms, bases without / ending in the constant, constants other than 1); weighted and unweighted", sizes))
 	// LOESS
 	lc := &C15Loess{}
 	lsizes := []int{4, 5, 6}
